@@ -930,3 +930,28 @@ impl<'g, T: RcObject> Pointer for Snapshot<'g, T> {
         Pointer::fmt(&self.ptr, f)
     }
 }
+
+/// Introspection for the verification harness.
+#[cfg(circ_verif)]
+pub mod verif_shim_strong {
+    use super::*;
+    use crate::utils::verif_shim::count_word;
+
+    /// The raw link/pointer word held by an `Rc` (address | tag | timestamp).
+    pub fn rc_word<T: RcObject>(p: &Rc<T>) -> usize {
+        unsafe { core::mem::transmute_copy(&p.ptr) }
+    }
+    pub fn snapshot_word<T: RcObject>(p: Snapshot<'_, T>) -> usize {
+        unsafe { core::mem::transmute_copy(&p.ptr) }
+    }
+    pub fn atomic_rc_word<T: RcObject>(p: &AtomicRc<T>) -> usize {
+        unsafe { core::mem::transmute_copy(&p.link.load(Ordering::SeqCst)) }
+    }
+    /// The count word of the object `p` points to (`p` must be non-null and allocated).
+    pub fn rc_count_word<T: RcObject>(p: &Rc<T>) -> u64 {
+        count_word(p.ptr.as_raw())
+    }
+    pub fn snapshot_count_word<T: RcObject>(p: Snapshot<'_, T>) -> u64 {
+        count_word(p.ptr.as_raw())
+    }
+}
